@@ -332,7 +332,9 @@ func C05(rep *ev.Reporter, tier string) {
 			if reparsed := c05Reparse(plain, engineTab); reparsed != nil && grl.Print(reparsed, grl.Style{FullParen: true}) != grl.Print(x.e, grl.Style{FullParen: true}) {
 				// the text groups differently under the grammar's table: does that explain the observation?
 				real, rerr := c05RunAlone(plain, x.val.K, st.st)
-				if v2, ok := c05Eval(reparsed); ok {
+				// raw reference value under the grammar's grouping (Inf / NaN allowed here: this only classifies)
+				v2, err2 := (&ref.Evaluator{W: c05World()}).Eval(reparsed)
+				if err2 == nil {
 					if rerr == nil && real == v2.String() {
 						sig = "C05:bitand-groups-with-additive-operators-not-as-published"
 					}
